@@ -93,6 +93,8 @@ pub struct RunResult {
     pub steps_of: Vec<u64>,
     pub read_locks: u64,
     pub statuses: String,
+    /// freeze runs: the structure the solo thread saw (taken while the writer was suspended)
+    pub frozen_dump: Option<CDump>,
 }
 
 fn now(s: &Sched) -> u64 {
@@ -324,6 +326,7 @@ pub fn run_program<S: BuildHasher + Default + Send + Sync>(p: &Program, opts: Ru
         sched.inner.lock().unwrap().freeze_at[t] = Some(k);
     }
     let mut verdict = Verdict::Running;
+    let mut frozen_dump = None;
     std::thread::scope(|scope| {
         for tid in 0..n {
             let sched = sched.clone();
@@ -354,6 +357,7 @@ pub fn run_program<S: BuildHasher + Default + Send + Sync>(p: &Program, opts: Ru
                             }
                         }
                         calls.lock().unwrap().push(Call { tid, op: op.clone(), inv, res, out });
+                        sched.op_completed(tid);
                     }
                 }));
                 hooks::set_mode(Mode::Off);
@@ -388,6 +392,9 @@ pub fn run_program<S: BuildHasher + Default + Send + Sync>(p: &Program, opts: Ru
                 ));
             }
             if frozen {
+                let g = map.guard();
+                frozen_dump = Some(canon(&map.verif_dump(&g)));
+                drop(g);
                 verdict = sched.resume(&[t]);
             }
         }
@@ -467,6 +474,7 @@ pub fn run_program<S: BuildHasher + Default + Send + Sync>(p: &Program, opts: Ru
         steps_of,
         read_locks: read_locks.into_inner().unwrap(),
         statuses,
+        frozen_dump,
     }
 }
 
